@@ -969,6 +969,72 @@ func runC08(c *Ctx) {
 			rec.Violate("signed-not-emitted", "received-signed-again", fmt.Sprintf("signed protected content %s, emitted %s, received %s", hexs(tbs.Kids[idx].Str), hexs(on.Kids[0].Str), hexs(l.Content())), in)
 		}
 	}
+	// ---- the objects inside a received message encode the same way every time the message is received ----
+	for i := 0; i < c.N(120, 3000); i++ {
+		r := mon.NewRand(uint64(c.Seed)).Sub(uint64(129500 + i))
+		a := int64(-7)
+		inner := gen.RandLayer(r, gen.LayerOpts{Alg: &a, MaxProt: 2, MaxUnprot: 2, ScramblePct: 60})
+		// an unprotected header of several entries in an order of the sender's own
+		for j, n := 0, 2+r.Intn(5); j < n; j++ {
+			inner.Unprot.Kids = append([]*Node{refcbor.NInt(int64(7000 - 13*j)), refcbor.NTstr(fmt.Sprintf("v%d", j))}, inner.Unprot.Kids...)
+		}
+		item := refcbor.NArr(refcbor.NBstr(inner.Content()), inner.Unprot, refcbor.NBstr([]byte("countersignature")))
+		var val *Node = item
+		if i%3 == 1 {
+			val = refcbor.NArr(item, refcbor.Clone(item))
+		}
+		outer := gen.RandLayer(r, gen.LayerOpts{Alg: &a, MaxProt: 2, MaxUnprot: 2, ScramblePct: 60})
+		var kids []*Node
+		for k := 0; k+1 < len(outer.Unprot.Kids); k += 2 {
+			if l, ok := outer.Unprot.Kids[k].Int64(); ok && (l == 7 || l == 11) {
+				continue
+			}
+			kids = append(kids, outer.Unprot.Kids[k], outer.Unprot.Kids[k+1])
+		}
+		outer.Unprot.Kids = append(kids, refcbor.NInt(int64(mon.Pick(r, 7, 11))), val)
+		wire := (&gen.WSign1{L: outer, Payload: []byte("p"), Sig: mon.FixedSig, Tagged: true}).Bytes()
+		in := map[string]any{"case": i, "family": "objects inside a received message", "wire": mon.FullHex(wire)}
+		var first string
+		bad := false
+		for rep := 0; rep < 12 && !bad; rep++ {
+			var m cose.Sign1Message
+			var got string
+			if guard(rec, "nested objects of a received message", in, func() {
+				if m.UnmarshalCBOR(wire) != nil {
+					got = "refused"
+					return
+				}
+				for _, l := range []int64{7, 11} {
+					switch v := m.Headers.Unprotected[l].(type) {
+					case *cose.Countersignature:
+						b, e := v.MarshalCBOR()
+						got += fmt.Sprintf("%x/%v|", b, e)
+					case []*cose.Countersignature:
+						for _, x := range v {
+							b, e := x.MarshalCBOR()
+							got += fmt.Sprintf("%x/%v|", b, e)
+						}
+					}
+				}
+				m.Headers.RawUnprotected = nil
+				b, e := m.MarshalCBOR()
+				got += fmt.Sprintf("parent:%x/%v", b, e)
+			}) {
+				bad = true
+				break
+			}
+			if rep == 0 {
+				first = got
+			} else if got != first {
+				rec.Violate("unstable", "received-nested-objects", fmt.Sprintf("the objects inside one received message encode differently from one decode to the next\n first %s\n later %s", first, got), in)
+				bad = true
+			}
+		}
+		rec.Eval(1)
+		rec.Event("received-nested-objects")
+		rec.Class(fmt.Sprintf("received-nested-objects/list=%v/accepted=%v", i%3 == 1, first != "refused"))
+	}
+	rec.Require("received-nested-objects", 100)
 	rec.Require("received-signed-again", 100)
 	rec.Require("signed-edited-signed-again", 100)
 	rec.Require("signed-vs-emitted", int64(n/2))
